@@ -50,7 +50,7 @@ def mutate (img : Bytes) (m : String) : Option Bytes :=
     | [off, hx] => do
         let off ← off.toNat?
         let bs ← Driver.unhex hx
-        if off + bs.length ≤ img.length then pure (img.take off ++ bs ++ img.drop (off + bs.length)) else pure img
+        if off + bs.length ≤ img.length then pure (patch img off bs) else pure img
     | _ => none
   else none
 
@@ -298,6 +298,49 @@ def outcomeNameRaw (r : Except Err Arena) : String :=
 def outcomeOn (rules : Bool) (s : Bytes) : String :=
   if addrDependent s then "ADDRDEP" else outcomeNameRaw (loadOutcome addr rules s)
 
+/-- (offset, bytes) of a "w<off>:<hex>" mutation -/
+def parseW (m : String) : Option (Nat × Bytes) :=
+  if m.startsWith "w" then
+    match ((m.drop 1).toString.replace "." ":").splitOn ":" with
+    | [off, hx] => do
+        let off ← off.toNat?
+        let bs ← Driver.unhex hx
+        pure (off, bs)
+    | _ => none
+  else none
+
+/-- the verdict Thm/C17 proves for a single-field corruption of an intact image written by `save` (header, buffer
+    count, offsets, sizes), computed from the closed forms of the theorems — not by running the loader:
+    corrupt_magic / _version / _num_buffers / _offset / _size_not_last / _size_last_raised / _size_last_lowered_dvd.
+    none: no closed form (last size lowered by a multiple of 8: depends on the buffer's bytes) or not such a field. -/
+def predicted (img : Bytes) (off : Nat) (bs : Bytes) : Option String :=
+  let n := (img.getD hdrNumBuffersOff 0).toNat
+  let sizes := (List.range n).map (fun i => rdLE tblSizeSize img (sizeFieldAt i))
+  let bodiesEnd := headerSize + tableEntrySize * n + sizes.sum
+  let nrel := (img.length - bodiesEnd) / relocEntrySize
+  let unchanged := (img.drop off).take bs.length == bs
+  if unchanged || off + bs.length > img.length then none
+  else if bs.length == 1 && off < 4 then some "INVALID_FILE"
+  else if bs.length == 1 && off == hdrVersionOff then some "UNSUPPORTED_FILE_VERSION"
+  else if bs.length == 1 && off == hdrNumBuffersOff then
+    some (if (bs.getD 0 0).toNat > maxBuffers then "INVALID_FILE" else "CORRUPT_FILE")
+  else if off < headerSize || off ≥ headerSize + tableEntrySize * n then none
+  else
+    let i := (off - headerSize) / tableEntrySize
+    let f := (off - headerSize) % tableEntrySize
+    if f == tblOffsetOff && bs.length == 8 then some "CORRUPT_FILE"
+    else if f == tblSizeOff && bs.length == 4 then
+      let z := leVal bs
+      let len := sizes.getD i 0
+      if i + 1 < n then some "CORRUPT_FILE"
+      else if len < z then
+        let capOk := !(decide (newCap loadInitialSize 0 0 z > 2 ^ maxBufferSizeLog2))
+        if (z - len) % 8 == 0 && z - len ≤ 8 * nrel && capOk then some "OK"
+        else some (if capOk then "CORRUPT_FILE" else "INSUFFICIENT_MEMORY")
+      else if (len - z) % 8 != 0 then some "CORRUPT_FILE"
+      else none
+    else none
+
 def handleImg (id : String) (kvs : List String) : String :=
   let get (k : String) : Option String := (kvs.find? (·.startsWith (k ++ "="))).map (fun s => (s.drop (k.length + 1)).toString)
   match get "img", get "muts" with
@@ -309,21 +352,32 @@ def handleImg (id : String) (kvs : List String) : String :=
       match load loaderCfg addr img with
       | .ok a => s!" RELOCS={a.relocs.length} RESAVE={if save a == img then "same" else "diff"} T={readTrace img}"
       | .error _ => ""
-    let outs := (muts.splitOn ",").map fun m =>
+    -- every mutation with its verdict; for a single-field overwrite also the closed-form verdict of Thm/C17
+    -- (the executable shadow of the corruption theorems)
+    let res : List (String × Option (String × String)) := (muts.splitOn ",").map fun m =>
       if m.startsWith "p" then
         match (m.drop 1).toString.splitOn "-" with
         | [a, b] =>
           let a := a.toNat?.getD 0; let b := b.toNat?.getD 0
-          " ".intercalate (rle ((List.range (b - a)).map fun i => (a + i, outcomeOn rules (img.take (a + i)))))
+          (" ".intercalate (rle ((List.range (b - a)).map fun i => (a + i, outcomeOn rules (img.take (a + i))))), none)
         | _ =>
           match mutate img m with
-          | some s => s!"{m}={outcomeOn rules s}"
-          | none => s!"{m}=BADMUT"
+          | some s => (s!"{m}={outcomeOn rules s}", none)
+          | none => (s!"{m}=BADMUT", none)
       else
         match mutate img m with
-        | some s => s!"{m}={outcomeOn rules s}"
-        | none => s!"{m}=BADMUT"
-    s!"{id} REF={ref}{extra} " ++ " ".intercalate outs
+        | some s =>
+          let o := outcomeOn rules s
+          let pr := match parseW m with
+            | some (off, bs) => (predicted img off bs).map (fun p => (p, o))
+            | none => none
+          (s!"{m}={o}", pr)
+        | none => (s!"{m}=BADMUT", none)
+    let outs := res.map (·.1)
+    let chk := res.filterMap (fun x => x.2.map (fun p => (x.1, p.1, p.2)))
+    let bad := chk.filter (fun (x : String × String × String) => x.2.1 != x.2.2 && x.2.2 != "ADDRDEP")
+    let thm := s!" THM={chk.length}:{bad.length}" ++ (match bad with | [] => "" | x :: _ => s!":{x.1}:predicted-{x.2.1}")
+    s!"{id} REF={ref}{extra} " ++ " ".intercalate outs ++ thm
   | _, _ => s!"{id} BADCASE"
 
 def handle (line : String) : String :=
